@@ -19,6 +19,7 @@ M_FRAME_NULLS = "pandas-preprocess_table-ignore_na-keeps-null-rows"
 M_FRAME_VERDICT = "pandas-postprocess_table_with_field_output-ignore_na-only-all-null-rows"
 M_NFC_DUP = "pandas-n_failure_cases-groupby-on-duplicate-index"
 M_SCALAR_KEY = "pandas-format_groupby_input-len-of-scalar-group-key"
+M_ARROW_TABLE = "pandas-postprocess_table-failure-cases-agg-to_dict-on-arrow-dtype"
 
 
 def _errors(out):
@@ -282,6 +283,12 @@ def column_relations(run, rng, pa, level, pred, data, ignore_na, lazy):
 
     # R-native / R-scalar: other output kinds of the same predicate
     nat = G.native_pandas(pred)
+    if nat is not None and ignore_na:
+        try:                       # e.g. `%` is not implemented by pyarrow
+            nat(pd_obj("series", G.drop_null_rows(data)))
+        except Exception:  # noqa: BLE001
+            J.und("native-function-not-supported-by-the-dtype")
+            nat = None
     if nat is not None and ignore_na:
         J.ev("native-vectorised==all(f(x))")
         C = observe(pd_schema(pa, level, data, [_chk(pa, nat, ignore_na=True)]),
@@ -776,7 +783,19 @@ def frame_relations(run, rng, pa, pred, data, ignore_na, lazy):
             _chk(pa, fn, ignore_na=ignore_na, **opts)]), obj, lazy), store
     P, sP = variant()
     J.ev("frame:verdict==returned-bool")
-    if len(sP) != 1 or P.check_error or (P.verdict == "accept") != sP[0]:
+    if len(sP) == 1 and P.check_error:
+        # the function returned its bool(s); pandera then failed to turn the
+        # result into a verdict / failure cases and blames the function (with
+        # raise_warning=True this raises instead of warning)
+        arrow = form == "dataframe" and \
+            G.phys_of(data).endswith("[pyarrow]") and not sP[0] and \
+            "ArrowNotImplementedError" in P.error_text and \
+            "Unsupported cast from struct" in P.error_text
+        J.bad("frame-check-crashes-after-the-function-returned",
+              {"returns": form, "returned": sP, "observed": P.brief(),
+               "error": P.error_text[:300]}, M_ARROW_TABLE if arrow else None)
+        return J
+    if len(sP) != 1 or (P.verdict == "accept") != sP[0]:
         J.bad("frame-check-verdict-differs-from-the-returned-bool",
               {"returns": form, "returned": sP, "observed": P.brief()})
         return J
